@@ -36,6 +36,21 @@ func Open(path string) (*FreeList, error) {
 	if err != nil {
 		return nil, err
 	}
+	// A crash can leave an incomplete entry at the end of the file. Cut it
+	// off: entries appended behind it would be misaligned, and garbage
+	// collection would fail to read the file on every cycle.
+	fi, err := file.Stat()
+	if err != nil {
+		file.Close()
+		return nil, err
+	}
+	const entrySize = types.OffBytesLen + types.SizeBytesLen
+	if rem := fi.Size() % entrySize; rem != 0 {
+		if err = file.Truncate(fi.Size() - rem); err != nil {
+			file.Close()
+			return nil, err
+		}
+	}
 	return &FreeList{
 		file:      file,
 		writer:    bufio.NewWriterSize(file, blockBufferSize),
